@@ -75,7 +75,7 @@ def check_file(names, stem, style):
 
 def work(shard):
     out = {"files": 0, "blocks": 0, "violations": [], "n_violations": 0, "nontrivial": 0, "samples": []}
-    for names, stem, style in shard:
+    for pos, (names, stem, style) in enumerate(shard):
         f = check_file(names, stem, style)
         out["files"] += 1
         out["blocks"] += 2 * len(names)
@@ -85,7 +85,8 @@ def work(shard):
             out["n_violations"] += 1
             if len([c for c in out["violations"] if c["klass"] == x[0]]) < 2:
                 out["violations"].append({"kind": "history", "klass": x[0], "input": {"games": list(names), "stem": stem, "style": style},
-                                          "config": {}, "observed": x[1], "expected": x[2], "explanation": x[3]})
+                                          "config": {"files_processed_before_in_the_same_process": [[list(a), b, c] for a, b, c in shard[:pos]]},
+                                          "observed": x[1], "expected": x[2], "explanation": x[3]})
     if shard:
         out["samples"].append({"games": list(shard[0][0]), "stem": shard[0][1], "rendering": shard[0][2]})
     return out
@@ -94,7 +95,7 @@ def work(shard):
 RULE = ("input files = every ordered selection of 0..k games from the 7-game batch alphabet (solvable, unsolvable, malformed; None strategies, "
         "empty strategy lists, a 42-state board game for long float vectors) x 6 file stems (underscores, digits, stems ending in 'p'/'y') x 3 textual renderings of the same dictionary "
         "(plain repr, pretty-printed with a comment preamble, arithmetic expressions instead of literals); each is run through the real "
-        "main() -f inputs/<stem>.py -s in a scratch directory and the report is parsed by an independent parser; non-trivial = the file "
+        "main() -f inputs/<stem>.py -s in a scratch directory and the report is parsed by an independent parser; every worker process handles its files one after the other under the same relative path names (inputs/<stem>.py rewritten with different games), so state kept between files shows as a difference; non-trivial = the file "
         "contains a failing game, a game with None/empty strategy entries or the 42-state game")
 ASSUME = ["report layout: blocks introduced by a line of 160 '=', 14 lines per block, label padded to 24 characters then ': '",
           "expected values come from calling run_games on a deep copy of the same dictionary in the same process (floats round-trip through repr)"]
@@ -122,5 +123,13 @@ def run(ctx):
 
 def replay(case):
     i = case["input"]
+    # in isolation first - in a forked child, so that the attempt leaves nothing behind in this process
+    f = par.in_forked_child(lambda: check_file(tuple(i["games"]), i["stem"], i["style"]))
+    if f:
+        return f[0][3]
+    # not reproducible in isolation: replay the files this worker had processed before (a defect that depends on the history of the process)
+    before = case.get("config", {}).get("files_processed_before_in_the_same_process", [])
+    for a, b, c in before:
+        check_file(tuple(a), b, c)
     f = check_file(tuple(i["games"]), i["stem"], i["style"])
-    return f[0][3] if f else None
+    return ("after %d other files were processed in the same process: %s" % (len(before), f[0][3])) if f else None
